@@ -91,6 +91,36 @@ def gen_limits(rng, sizes_true):
     return kw, stopk
 
 
+def accessor_msg(res, obs):
+    """The accessors of a (possibly interrupted) result agree with its fields: diameter, get_layer(k) for stored and unstored k, last_layer."""
+    if res is None or "err" in obs:
+        return None
+    stored = dict(obs["layers"])
+    last = len(obs["sizes"]) - 1
+    if res.diameter() != last:
+        return f"diameter() = {res.diameter()}, the last reported layer is {last}"
+    for k in list(range(last + 1)) + [last + 1, -1]:
+        try:
+            got = ("ok", [[int(v) for v in row] for row in res.get_layer(k).reshape((len(res.get_layer(k)), -1)).tolist()])
+        except KeyError:
+            got = ("KeyError",)
+        except Exception as ex:  # pylint: disable=broad-except
+            got = (type(ex).__name__,)
+        want = ("ok", stored[k]) if k in stored else ("KeyError",)
+        if got != want:
+            return f"get_layer({k}) gives {str(got)[:80]}, expected {str(want)[:80]} (stored layers {sorted(stored)})"
+    try:
+        got = ("ok", [[int(v) for v in row] for row in res.last_layer().reshape((len(res.last_layer()), -1)).tolist()])
+    except KeyError:
+        got = ("KeyError",)
+    except Exception as ex:  # pylint: disable=broad-except
+        got = (type(ex).__name__,)
+    want = ("ok", stored[last]) if last in stored else ("KeyError",)
+    if got != want:
+        return f"last_layer() gives {str(got)[:80]}, the last reported layer {last} is {'stored' if last in stored else 'not stored (KeyError expected)'}"
+    return None
+
+
 def run(ctx):
     import torch
     import translators
@@ -121,8 +151,11 @@ def run(ctx):
                 stopk = ("hash", h)
                 if hash_layer == 0:
                     hash_layer = None     # the callback never sees layer 0
-            obs, _ = bfsrun.observe(graph, starts, kw, stopk)
+            obs, res_obj = bfsrun.observe(graph, starts, kw, stopk)
             case = {"graph": gd, "config": cfgd, "starts": starts, "bfs": kw, "stop": list(stopk) if stopk else None, "hash_layer": hash_layer}
+            amsg = accessor_msg(res_obj, obs)
+            if amsg:
+                ctx.violation("property_fails", amsg, dict(case, claim="accessors"), True)
             ctx.case_seen(case, len(dist) >= 4 and len(layers) >= 3)
             comp, sizes, _ = expected_prefix(st, kw, stopk, hash_layer)
             if comp:
